@@ -161,6 +161,10 @@ class stDAG(AbstractSourceSinkGraph):
             if (u, v) in edges_to_ignore_set:
                 edge_demand = 0
             edge_capacity = self[u][v].get(flow_attr, float('inf'))
+            # (integral capacities as Python ints, as the demands of the antichain computation: the network simplex keeps the type of the
+            # capacities for its flows, and a fixed-width numpy integer overflows - the width then came back as None)
+            if isinstance(edge_capacity, numbers.Integral):
+                edge_capacity = int(edge_capacity)
 
             # adding the edge
             G_nx.add_edge(u, v, l=edge_demand, u=edge_capacity, c=cost)
